@@ -109,6 +109,12 @@ class NP:
         return SymSeq(n, lambda q: Sym(perm(lift(q))), SInt, "argsort")
 
     @staticmethod
+    def sort(x, kind=None, axis=-1):
+        """the values of x in non-decreasing order (x gathered through an argsort permutation)"""
+        x = as_seq(x)
+        return x[NP.argsort(x, kind=kind)]
+
+    @staticmethod
     def arange(n, dtype=None):
         return SymSeq(lift(n), lambda j: Sym(lift(j)), SInt, "arange")
 
@@ -645,11 +651,11 @@ def bounds_post(c, hs, Fi, Li, Fv, Lv, nf, nl, lb0, ub0, tag=""):
     lb1, ub1 = hs.lb, hs.ub
     infix = lambda cc: z3.Exists([p], z3.And(p >= 0, p < nf, Fi(p) == cc))
     inlb = lambda cc: z3.Exists([q], z3.And(q >= 0, q < nl, Li(q) == cc))
-    c.prove(tag + "post:queued-lower-bound=>lb=value", z3.ForAll([q], z3.Implies(z3.And(q >= 0, q < nl), lb1[Li(q)] == Lv(q))), prop=P)
-    c.prove(tag + "post:queued-lower-bound=>ub-unchanged", z3.ForAll([q], z3.Implies(z3.And(q >= 0, q < nl, z3.Not(infix(Li(q)))), ub1[Li(q)] == ub0[Li(q)])), prop=P)
-    c.prove(tag + "post:queued-fix=>ub=value", z3.ForAll([p], z3.Implies(z3.And(p >= 0, p < nf), ub1[Fi(p)] == Fv(p))), prop=P)
-    c.prove(tag + "post:queued-fix=>lb=value(unless-also-lb-queued)", z3.ForAll([p], z3.Implies(z3.And(p >= 0, p < nf, z3.Not(inlb(Fi(p)))), lb1[Fi(p)] == Fv(p))), prop=P)
-    c.prove(tag + "post:other-columns-unchanged", z3.ForAll([col], z3.Implies(z3.And(z3.Not(infix(col)), z3.Not(inlb(col))), z3.And(lb1[col] == lb0[col], ub1[col] == ub0[col]))), prop=P)
+    c.prove(tag + "post:queued-lower-bound=>lb=value", z3.ForAll([q], z3.Implies(z3.And(q >= 0, q < nl), lb1[Li(q)] == Lv(q))), prop=P + ",C05")
+    c.prove(tag + "post:queued-lower-bound=>ub-unchanged", z3.ForAll([q], z3.Implies(z3.And(q >= 0, q < nl, z3.Not(infix(Li(q)))), ub1[Li(q)] == ub0[Li(q)])), prop=P + ",C05")
+    c.prove(tag + "post:queued-fix=>ub=value", z3.ForAll([p], z3.Implies(z3.And(p >= 0, p < nf), ub1[Fi(p)] == Fv(p))), prop=P + ",C05")
+    c.prove(tag + "post:queued-fix=>lb=value(unless-also-lb-queued)", z3.ForAll([p], z3.Implies(z3.And(p >= 0, p < nf, z3.Not(inlb(Fi(p)))), lb1[Fi(p)] == Fv(p))), prop=P + ",C05")
+    c.prove(tag + "post:other-columns-unchanged", z3.ForAll([col], z3.Implies(z3.And(z3.Not(infix(col)), z3.Not(inlb(col))), z3.And(lb1[col] == lb0[col], ub1[col] == ub0[col]))), prop=P + ",C05")
 
 
 def u_apply_pending():
@@ -669,7 +675,7 @@ def u_apply_pending():
         hs = me.solver
         lb0, ub0 = hs.lb, hs.ub
         fake = types.ModuleType("numpy")
-        fake.array, fake.int32, fake.float64, fake.argsort = NP.array, None, None, NP.argsort
+        fake.array, fake.int32, fake.float64, fake.argsort, fake.sort = NP.array, None, None, NP.argsort, NP.sort
         saved = sys.modules.get("numpy")
         sys.modules["numpy"] = fake           # the function does `import numpy as np` locally
         raised = None
@@ -696,7 +702,7 @@ def u_apply_pending():
     def replay(ob, model):
         from vf.replay import replay_bound_queue
         return replay_bound_queue(model)
-    return Unit(F, "SolverWrapper._apply_pending_bound_updates", h, globs=dict(BASE_GLOBS, hasattr=hasattr_), props=[P], replay=replay,
+    return Unit(F, "SolverWrapper._apply_pending_bound_updates", h, globs=dict(BASE_GLOBS, hasattr=hasattr_), props=[P, "C05"], replay=replay,
                 assumptions=[A1, "Inv_SW: columns inside one queue are pairwise distinct (HiGHS rejects index sets with duplicates)",
                              "both outcomes of hasattr(solver, 'changeColsLower') are explored (installed highspy 1.15.1 lacks it)"])
 
